@@ -122,6 +122,33 @@ func (g *c15gate) fn(kind string) ufn {
 	}
 }
 
+// c15hold parks goroutines at a hook point until the harness releases the whole group.
+type c15hold struct {
+	mu     sync.Mutex
+	ch     chan struct{}
+	parked atomic.Int64
+}
+
+func (h *c15hold) hook(_ context.Context, point string, _ ...any) {
+	if point != "oplimit.loaded" {
+		return
+	}
+	h.mu.Lock()
+	ch := h.ch
+	h.parked.Add(1)
+	h.mu.Unlock()
+	<-ch
+}
+
+func (h *c15hold) release() {
+	h.mu.Lock()
+	old := h.ch
+	h.ch = make(chan struct{})
+	h.parked.Store(0)
+	h.mu.Unlock()
+	close(old)
+}
+
 type c15callers struct {
 	mu       sync.Mutex
 	results  []string
@@ -162,6 +189,7 @@ func c15conc(s *Sexp) string {
 	u := g.fn(kind)
 	goroutines, callsEach := G, 1 // how the G calls are issued
 	var call func() string
+	var hold *c15hold
 
 	fromU := func(f ufn) func() string {
 		return func() string { return c15resStr(f(ctx, 0)) }
@@ -219,6 +247,14 @@ func c15conc(s *Sexp) string {
 		}
 	case "oplimit":
 		call = fromU(fromOperation(w.asOperation(u).Limit(n)))
+	case "oplimitf":
+		// forced schedule: every caller is held between counter.Load() and the CAS (hook point
+		// "oplimit.loaded") and all held callers are released together, so that they race on
+		// the same loaded value
+		call = fromU(fromOperation(w.asOperation(u).Limit(n)))
+		hold = &c15hold{ch: make(chan struct{})}
+		fun.VerifSetHook(hold.hook)
+		defer fun.VerifSetHook(schedHook)
 	case "lock":
 		switch kind {
 		case "W":
@@ -297,7 +333,16 @@ func c15conc(s *Sexp) string {
 			return "NOQUIESCE " + strings.Join(phases, "")
 		}
 		in := g.inside.Load()
-		phases = append(phases, fmt.Sprintf("(%d,%d)", cs.returned.Load(), in))
+		if hold != nil {
+			parked := hold.parked.Load()
+			phases = append(phases, fmt.Sprintf("(%d,%d,%d)", cs.returned.Load(), in, parked))
+			if parked > 0 && round <= 4096 {
+				hold.release()
+				continue
+			}
+		} else {
+			phases = append(phases, fmt.Sprintf("(%d,%d)", cs.returned.Load(), in))
+		}
 		if in == 0 || round > 4096 {
 			break
 		}
